@@ -372,6 +372,47 @@ def check_noop(ctx):
     ctx.expect(paths, ret=1)
 
 
+def check_dylib_foreign(ctx):
+    ctx.eng.max_strlen = 64
+    x = ctx.sym("x", 32)
+    paths = ctx.run("k_dylib_foreign_name", [x])
+    for q in paths:
+        lg = q.user.get("log") or []
+        reached = any(e[0] == 35 for e in lg)
+        ran = [e for e in lg if e[0] == 30 and e[1] == 99]
+        ctx.require(q, z3.BoolVal(q.status == "abort" and reached and not ran),
+                    "a name the instance's library does not export is refused before the call, never resolved in the application's global scope (%s, application function ran %d times)"
+                    % (q.status, len(ran)))
+    ctx.expect(paths, abort=1)
+
+
+def check_unreg_arg(ctx):
+    b0 = ctx.sandbox_base(32, "b0", aligned=False)
+    how = ctx.sym("how", 32)
+    x = ctx.sym("x", 32)
+    ctx.assume(z3.ULE(how, 3))
+    paths = ctx.run("k_bm_unreg_arg", [b0, how, x])
+    seen = set()
+    for q in paths:
+        if q.status != "ret":
+            ctx.fail(q, "passing a callback owner ended %s (%s)" % (q.status, q.info))
+            continue
+        lg = q.user.get("log") or []
+        inert = [e for e in lg if e[0] == 31][0][1]
+        got = [e for e in lg if e[0] == 30]
+        bodies = [e[1] for e in lg if e[0] == 20]
+        seen.add(inert)
+        if inert:
+            ctx.require(q, z3.BoolVal(len(got) == 1 and isinstance(got[0][1], int) and got[0][1] == 0 and bodies == []),
+                        "an inert (unregistered / moved-from) owner reaches the callee as the null function pointer and no callback runs (callee saw %s, bodies %s)"
+                        % ([str(e[1]) for e in got], bodies))
+        else:
+            ctx.require(q, z3.BoolVal(len(got) == 1 and bodies == [1]), "control: a registered owner reaches the callee as its entry point and exactly its function runs")
+    ctx.expect(paths, ret=2)
+    if seen != {0, 1}:
+        ctx.inconclusive.append("did not see both inert and registered owners: %s" % seen)
+
+
 def check_dylib_two(ctx):
     ctx.eng.max_strlen = 64
     order = ctx.sym("order", 32)
@@ -427,6 +468,8 @@ def jobs(tier, seed):
     for j in C12.jobs("quick", seed):
         if j.name in ("C12_noop_nested", "C12_noop_etls_nested", "C12_dylib_nested", "C12_dylib_etls_nested"):
             out.append(Job(j.name.replace("C12_", "C11_cbarg_"), j.source, j.checks, flags=j.flags, unwind=j.unwind, compare_logs=j.compare_logs, native=j.want_native))
+    out.append(Job("C11_dylib_foreign", '#include "C11_dylib2.inc"\n', [dict(name="dylib name not exported by the instance's library", fn=check_dylib_foreign, unwind=300)], native=False))
+    out.append(Job("C11_unreg_arg", '#include "C11_unreg.inc"\n', [dict(name="BM inert callback owner passed as an argument", fn=check_unreg_arg, unwind=300)], native=False))
     out.append(Job("C11_dylib_two", '#include "C11_dylib2.inc"\n', [dict(name="dylib two instances, two libraries, same names", fn=check_dylib_two, unwind=300)], native=False))
     out.append(Job("C11_noop_static", NOOP_SRC, [dict(name="noop static call", fn=check_noop, unwind=300)], native=False))
     return out
